@@ -80,6 +80,21 @@ static J gen_background(Chooser &ch)
     }
   c["queries"] = qs;
   c["props"] = g::gen_props(ch, 8);
+  // 40%: another world with other constants (and possibly the other coordinate system) is built and queried first in the same
+  // process: the background of *this* world is a function of its own file only. Every case runs in its own process, so the replay
+  // of a case contains exactly this history.
+  if (ch.chance(40))
+    {
+      g::Opt o2;
+      o2.min_features = 0; o2.max_features = 1; o2.global_constants = true; o2.force_surface = true; o2.any_gravity_sign = true; o2.cooling_models = false; o2.cross_section = ch.flip() ? 2 : 0;
+      g::GW w2 = g::gen_world(ch, o2);
+      J pre = J::obj();
+      pre["world"] = w2.root.dump();
+      pre["query"] = g::make_query(w2.fr, w2.fr.sph ? 10.0 : 1e5, w2.fr.sph ? 20.0 : 2e5, ch.pick<double>({0.0, 50e3, 300e3}));
+      pre["has_section"] = w2.root.has("cross section");
+      pre["p2"] = w2.fr.sph ? jp((w2.fr.R - 50e3) * std::cos(0.1), (w2.fr.R - 50e3) * std::sin(0.1)) : jp(1e5, w2.fr.H - 50e3);
+      c["prelude"] = pre;
+    }
   return c;
 }
 
@@ -88,6 +103,16 @@ static Result check_background(const J &c)
   Result r;
   const J root = J::parse(c.at("world").str());
   const Consts k = consts_of(root);
+  std::unique_ptr<WB::World> prelude_world;
+  if (c.has("prelude"))
+    {
+      const J &pre = c.at("prelude");
+      prelude_world = make_world(pre.at("world").str(), 1, "prelude");
+      const PropList all = {{{1, 0, 0}}, {{2, 0, 0}}, {{3, 0, 1}}, {{5, 0, 0}}, {{4, 0, 0}}};
+      try { prelude_world->properties(p3(pre.at("query").at("p")), pre.at("query").at("depth").num(), all); } catch (const std::exception &) {}
+      if (pre.at("has_section").boolean()) { try { prelude_world->properties(p2(pre.at("p2")), 50e3, all); } catch (const std::exception &) {} }
+      r.classes.push_back("another world queried first");
+    }
   auto w = make_world(c.at("world").str());
   PropList props = props_from(c.at("props"));
   // make sure the tag is asked for once (appended, so the generated layout is kept)
@@ -190,7 +215,7 @@ int main(int argc, char **argv)
 {
   return run_main("C03", argc, argv,
   {
-    {"background", "worlds with 0..4 features, random Tp/alpha/cp/g/surface T, both coordinate systems; points far from everything by construction or anywhere with tag -1; depths incl. 0, negative, huge; any property list. Non-trivial: non-default constants and depth != 0, or forcing on at depth 0 in a batch", 400, gen_background, check_background},
+    {"background", "worlds with 0..4 features, random Tp/alpha/cp/g/surface T, both coordinate systems; points far from everything by construction or anywhere with tag -1; depths incl. 0, negative, huge; any property list. Non-trivial: non-default constants and depth != 0, or forcing on at depth 0 in a batch. 40% of the cases build and query another world with other constants first; every case runs in its own process", 400, gen_background, check_background, 100, true, true},
     {"forced_surface", "worlds with force surface temperature, points aimed inside features at depth 0 / +-1e-16, any property list. Non-trivial: inside a feature, batch of >1 property containing temperature", 300, gen_forced, check_forced},
   });
 }
